@@ -29,7 +29,7 @@ ASSUMPTIONS = [
     "integers are limited to |v| < 1e15 (exactly representable in both int64 and float64)",
     "numeric comparison reader-vs-token tolerates max(1e-15 absolute, 1e-13 relative): pandas.to_numeric drops digits beyond the 16th decimal place of positional-notation tokens (e.g. '0.00000000000012345678' -> 1.234e-13); nine orders of magnitude below STAR's 6-decimal precision, exponent-notation tokens are exact",
 ]
-BUDGET = {"quick": {"examples": 1000, "seconds": 70}, "thorough": {"examples": 6000, "seconds": 480}}
+BUDGET = {"quick": {"examples": 1000, "seconds": 70}, "thorough": {"examples": 4000, "seconds": 480}}
 
 # ---------------------------------------------------------------------------------------------
 # generators
